@@ -1,0 +1,258 @@
+//! Verification hook (cargo feature `isographlabs_isograph_verif` only).
+//!
+//! `verif_dump_tree` turns a parsed iso literal into a generic span tree whose children are
+//! exactly the `#[resolve_field]` fields (in declaration order, `Option`/`Vec` flattened) that
+//! `ResolvePosition::resolve` looks at. `verif_resolve_chain` runs the real `resolve` and returns
+//! the resolved node followed by its ancestors. Nodes are identified by (kind, address of the
+//! AST item), kinds are the variant names of `IsographResolvedNode`.
+use common_lang_types::{Span, WithEmbeddedLocation};
+use isograph_lang_types::{
+    ClientFieldDeclaration, ClientObjectSelectableNameWrapperParent, ClientPointerDeclaration,
+    ClientScalarSelectableNameWrapperParent, DescriptionParent, EntityNameWrapperParent,
+    EntrypointDeclaration, IsographResolvedNode, ObjectSelectionPath, SelectionParentType,
+    SelectionSet, SelectionSetParentType, SelectionSetPath, SelectionType,
+    TypeAnnotationDeclarationParentType, VariableDeclaration, VariableDeclarationParentType,
+    VariableDeclarationPath, VariableNameWrapperParentType,
+};
+use resolve_position::ResolvePosition;
+
+use crate::IsoLiteralExtractionResult;
+
+pub struct VerifNode {
+    pub kind: &'static str,
+    pub span: Span,
+    pub addr: usize,
+    pub children: Vec<VerifNode>,
+}
+
+fn addr<T>(t: &T) -> usize {
+    t as *const T as usize
+}
+
+fn leaf<T>(kind: &'static str, node: &WithEmbeddedLocation<T>) -> VerifNode {
+    VerifNode {
+        kind,
+        span: node.location.span,
+        addr: addr(&node.item),
+        children: vec![],
+    }
+}
+
+fn selection_set(node: &WithEmbeddedLocation<SelectionSet>) -> VerifNode {
+    let mut children = vec![];
+    for selection in node.item.selections.iter() {
+        children.push(match &selection.item {
+            SelectionType::Scalar(scalar) => VerifNode {
+                kind: "ScalarSelection",
+                span: selection.location.span,
+                addr: addr(scalar),
+                children: vec![],
+            },
+            SelectionType::Object(object) => VerifNode {
+                kind: "ObjectSelection",
+                span: selection.location.span,
+                addr: addr(object),
+                children: vec![selection_set(&object.selection_set)],
+            },
+        });
+    }
+    VerifNode {
+        kind: "SelectionSet",
+        span: node.location.span,
+        addr: addr(&node.item),
+        children,
+    }
+}
+
+fn variable_declaration(node: &WithEmbeddedLocation<VariableDeclaration>) -> VerifNode {
+    VerifNode {
+        kind: "VariableDeclarationInner",
+        span: node.location.span,
+        addr: addr(&node.item),
+        children: vec![
+            leaf("VariableNameWrapper", &node.item.name),
+            leaf("TypeAnnotation", &node.item.type_),
+        ],
+    }
+}
+
+fn client_field(node: &WithEmbeddedLocation<ClientFieldDeclaration>) -> VerifNode {
+    let item = &node.item;
+    let mut children = vec![
+        leaf("EntityNameWrapper", &item.parent_type),
+        leaf("ClientScalarSelectableNameWrapper", &item.client_field_name),
+    ];
+    children.extend(item.description.iter().map(|d| leaf("Description", d)));
+    children.push(selection_set(&item.selection_set));
+    children.extend(item.variable_definitions.iter().map(variable_declaration));
+    VerifNode {
+        kind: "ClientFieldDeclaration",
+        span: node.location.span,
+        addr: addr(item),
+        children,
+    }
+}
+
+fn client_pointer(node: &WithEmbeddedLocation<ClientPointerDeclaration>) -> VerifNode {
+    let item = &node.item;
+    let mut children = vec![
+        leaf("EntityNameWrapper", &item.parent_type),
+        leaf("ClientObjectSelectableNameWrapper", &item.client_pointer_name),
+        leaf("TypeAnnotation", &item.target_type),
+    ];
+    children.extend(item.description.iter().map(|d| leaf("Description", d)));
+    children.push(selection_set(&item.selection_set));
+    children.extend(item.variable_definitions.iter().map(variable_declaration));
+    VerifNode {
+        kind: "ClientPointerDeclaration",
+        span: node.location.span,
+        addr: addr(item),
+        children,
+    }
+}
+
+fn entrypoint(node: &WithEmbeddedLocation<EntrypointDeclaration>) -> VerifNode {
+    let item = &node.item;
+    VerifNode {
+        kind: "EntrypointDeclaration",
+        span: node.location.span,
+        addr: addr(item),
+        children: vec![
+            leaf("EntityNameWrapper", &item.parent_type),
+            leaf("ClientScalarSelectableNameWrapper", &item.client_field_name),
+        ],
+    }
+}
+
+pub fn verif_dump_tree(result: &IsoLiteralExtractionResult) -> VerifNode {
+    match result {
+        IsoLiteralExtractionResult::ClientPointerDeclaration(p) => client_pointer(p),
+        IsoLiteralExtractionResult::ClientFieldDeclaration(f) => client_field(f),
+        IsoLiteralExtractionResult::EntrypointDeclaration(e) => entrypoint(e),
+    }
+}
+
+type Chain = Vec<(&'static str, usize)>;
+
+fn up_variable_declaration(path: &VariableDeclarationPath<'_>, chain: &mut Chain) {
+    chain.push(("VariableDeclarationInner", addr(path.inner)));
+    match &path.parent {
+        VariableDeclarationParentType::ClientPointerDeclaration(p) => {
+            chain.push(("ClientPointerDeclaration", addr(p.inner)))
+        }
+        VariableDeclarationParentType::ClientFieldDeclaration(p) => {
+            chain.push(("ClientFieldDeclaration", addr(p.inner)))
+        }
+    }
+}
+
+fn up_selection_set(path: &SelectionSetPath<'_>, chain: &mut Chain) {
+    chain.push(("SelectionSet", addr(path.inner)));
+    match &path.parent {
+        SelectionSetParentType::ObjectSelection(object) => up_object_selection(object, chain),
+        SelectionSetParentType::ClientFieldDeclaration(p) => {
+            chain.push(("ClientFieldDeclaration", addr(p.inner)))
+        }
+        SelectionSetParentType::ClientPointerDeclaration(p) => {
+            chain.push(("ClientPointerDeclaration", addr(p.inner)))
+        }
+    }
+}
+
+fn up_object_selection(path: &ObjectSelectionPath<'_>, chain: &mut Chain) {
+    chain.push(("ObjectSelection", addr(path.inner)));
+    match &path.parent {
+        SelectionParentType::SelectionSet(selection_set) => up_selection_set(selection_set, chain),
+    }
+}
+
+/// The node `resolve` returns for `offset`, followed by its ancestors up to the declaration.
+pub fn verif_resolve_chain(result: &IsoLiteralExtractionResult, offset: u32) -> Chain {
+    let mut chain = vec![];
+    match result.resolve((), Span::new(offset, offset)) {
+        IsographResolvedNode::EntrypointDeclaration(p) => {
+            chain.push(("EntrypointDeclaration", addr(p.inner)))
+        }
+        IsographResolvedNode::ClientFieldDeclaration(p) => {
+            chain.push(("ClientFieldDeclaration", addr(p.inner)))
+        }
+        IsographResolvedNode::ClientPointerDeclaration(p) => {
+            chain.push(("ClientPointerDeclaration", addr(p.inner)))
+        }
+        IsographResolvedNode::EntityNameWrapper(p) => {
+            chain.push(("EntityNameWrapper", addr(p.inner)));
+            match &p.parent {
+                EntityNameWrapperParent::EntrypointDeclaration(p) => {
+                    chain.push(("EntrypointDeclaration", addr(p.inner)))
+                }
+                EntityNameWrapperParent::ClientFieldDeclaration(p) => {
+                    chain.push(("ClientFieldDeclaration", addr(p.inner)))
+                }
+                EntityNameWrapperParent::ClientPointerDeclaration(p) => {
+                    chain.push(("ClientPointerDeclaration", addr(p.inner)))
+                }
+            }
+        }
+        IsographResolvedNode::Description(p) => {
+            chain.push(("Description", addr(p.inner)));
+            match &p.parent {
+                DescriptionParent::ClientFieldDeclaration(p) => {
+                    chain.push(("ClientFieldDeclaration", addr(p.inner)))
+                }
+                DescriptionParent::ClientPointerDeclaration(p) => {
+                    chain.push(("ClientPointerDeclaration", addr(p.inner)))
+                }
+            }
+        }
+        IsographResolvedNode::ScalarSelection(p) => {
+            chain.push(("ScalarSelection", addr(p.inner)));
+            match &p.parent {
+                SelectionParentType::SelectionSet(s) => up_selection_set(s, &mut chain),
+            }
+        }
+        IsographResolvedNode::ObjectSelection(p) => up_object_selection(&p, &mut chain),
+        IsographResolvedNode::ClientScalarSelectableNameWrapper(p) => {
+            chain.push(("ClientScalarSelectableNameWrapper", addr(p.inner)));
+            match &p.parent {
+                ClientScalarSelectableNameWrapperParent::EntrypointDeclaration(p) => {
+                    chain.push(("EntrypointDeclaration", addr(p.inner)))
+                }
+                ClientScalarSelectableNameWrapperParent::ClientFieldDeclaration(p) => {
+                    chain.push(("ClientFieldDeclaration", addr(p.inner)))
+                }
+            }
+        }
+        IsographResolvedNode::ClientObjectSelectableNameWrapper(p) => {
+            chain.push(("ClientObjectSelectableNameWrapper", addr(p.inner)));
+            match &p.parent {
+                ClientObjectSelectableNameWrapperParent::ClientPointerDeclaration(p) => {
+                    chain.push(("ClientPointerDeclaration", addr(p.inner)))
+                }
+            }
+        }
+        IsographResolvedNode::SelectionSet(p) => up_selection_set(&p, &mut chain),
+        IsographResolvedNode::TypeAnnotation(p) => {
+            chain.push(("TypeAnnotation", addr(p.inner)));
+            match &p.parent {
+                TypeAnnotationDeclarationParentType::ClientPointerDeclaration(p) => {
+                    chain.push(("ClientPointerDeclaration", addr(p.inner)))
+                }
+                TypeAnnotationDeclarationParentType::VariableDeclarationInner(v) => {
+                    up_variable_declaration(v, &mut chain)
+                }
+            }
+        }
+        IsographResolvedNode::VariableNameWrapper(p) => {
+            chain.push(("VariableNameWrapper", addr(p.inner)));
+            match &p.parent {
+                VariableNameWrapperParentType::VariableDeclarationInner(v) => {
+                    up_variable_declaration(v, &mut chain)
+                }
+            }
+        }
+        IsographResolvedNode::VariableDeclarationInner(p) => {
+            up_variable_declaration(&p, &mut chain)
+        }
+    }
+    chain
+}
